@@ -21,8 +21,26 @@ CHECKS = {
          "upgrade is Some iff the value has not been destroyed (group members count as destroyed from the moment the group teardown starts); dead Weaks report 0/0; allocation valid until last Weak drop.", "4 C05"),
  "C06": ("model-based stateful property testing (proptest); oracle: handle-instance ledger vs strong_count/weak_count/ptr_eq/as_ptr after every op and inside destructors",
          "Counts equal the number of existing handle instances at every quiescent point and at destructor observation points; identity stable.", "4 C06"),
+ "C07": ("differential property testing (proptest): generated straight-line programs interpreted over cactusref and over std::rc; oracle: equality of observation traces and ordered destructor logs",
+         "Same results from every shared API call and the same sequence of value destructions as std::rc::{Rc,Weak} of the installed toolchain, over generated no-adoption programs with values owning strong and Weak handles.", "4 C07"),
  "C08": ("model-based stateful property testing (proptest); oracle: link-table snapshots (hook H1) vs adoption ledger after every op",
          "Tables equal the multiset of adoptions implied by the calls, mirrored on both ends, never naming a destroyed object.", "4 C08"),
+ "C09": ("metamorphic property testing (proptest): each generated history replayed under K perturbed heap layouts in separate forks; oracle: equal per-op destroyed sets and counts",
+         "What each operation destroys and every count observable afterwards is identical across K layouts (different addresses, hence different FxHash values and table iteration orders).", "4 C09"),
+ "C10": ("model-based stateful property testing (proptest) with generated destructor action scripts (re-entrant API use); oracle: views of C01-C06 on the nested event log + no library panic",
+         "Destructors that clone/drop/adopt/unadopt/downgrade/upgrade on outsiders (incl. nested collections) during every teardown path leave all C01-C06 views intact and meet no borrow conflict.", "4 C10"),
+ "C11": ("fault injection driven by property testing (proptest): one armed panic per op inside generated payload destructors, run under catch_unwind; oracle: at-most-once log, reachability bound, Weak views, allocator faults, history continues",
+         "A panic at any member position of any teardown path propagates, destroys nothing twice, frees nothing twice, leaves reachable objects intact and Weaks reporting dead.", "4 C11"),
+ "C12": ("model-based stateful property testing (proptest) over the handle-consuming API on linked objects; oracle: table snapshots, allocator faults, value moved/cloned exactly once, allocation accounting",
+         "try_unwrap/make_mut/get_mut/raw round trips/inc/dec on objects with adoption records leave no peer record naming the given-up allocation and later drops touch no freed memory.", "4 C12"),
+ "C13": ("model-based stateful property testing (proptest) over histories with elided unadopt; oracle: reachability bound + allocator faults; known finding D4 excluded by an exact model predicate evaluated before each drop",
+         "Apart from the listed known finding (exact signature in known_findings.json), no history with elided unadopt destroys a reachable object or touches freed memory.", "4 C13"),
+ "C14": ("model-based stateful property testing (proptest) with cost instrumentation; oracle: trace counter (hook H2) and arena allocation counters around every clone/drop of a handle to an object without recorded adoptions",
+         "Every clone, and every drop of a handle to an object with no recorded adoption, runs zero traces and zero allocations (zero frees if the object stays alive).", "4 C14"),
+ "C15": ("property testing over generated size/shape parameters (proptest), final drop on a 128 KiB stack in a forked child; oracle: completion, destructor count, hook counters bounded linearly",
+         "Orphaned groups up to 20k (quick) / 300k (thorough) objects are reclaimed on a 128 KiB stack with <= 2N+2 table scans and <= 2(N+E)+2 worklist pops over all traces of the final drop.", "4 C15"),
+ "C16": ("model-based stateful property testing (proptest) with process-level oracle: fork per case, exit status of the child",
+         "Cloning a stored handle to a destroyed (or condemned) peer from a destructor terminates the child by SIGILL/SIGABRT/SIGTRAP before the clone returns; clones of live peers succeed; drops of dead handles are inert.", "4 C16"),
 }
 NOT_YET = {}
 
